@@ -215,7 +215,7 @@ def run(prop, tier, labels, only=None):
     for b in MPL.benches(tier):
         if prop in b["props"] and (not only or only in b["name"]):
             jobs.append(dict(scenario="scenario", params=dict(bench=b["bench"], driver=b["driver"], permute=b.get("permute", True), acyclic=True, name=b["name"]),
-                             loop_bound=60, budget_s=600 if tier == "quick" else 3000))
+                             loop_bound=60, budget_s=1500 if tier == "quick" else 5000))
             names.append(b["name"])
     ev.cov["bounds"] = {"benches": names,
                         "schedules": "every order in which the executor model can pick a ready task (symbolic pick index decided by the solver), except "
